@@ -4,6 +4,8 @@ import (
 	"fmt"
 	"reflect"
 	"sort"
+
+	yaml "gopkg.in/yaml.v2"
 )
 
 // Sort any []any value.
@@ -25,7 +27,12 @@ func (s genericSortable) Swap(i, j int) {
 
 // Less is part of sort.Interface.
 func (s genericSortable) Less(i, j int) bool {
-	return Less(s[i], s[j])
+	// nils sort first, so that the order of the other elements does not depend on where the nils are
+	a, b := ToLiquid(s[i]), ToLiquid(s[j])
+	if a == nil || b == nil {
+		return a == nil && b != nil
+	}
+	return Less(a, b)
 }
 
 // SortByProperty sorts maps on their key indices.
@@ -55,11 +62,20 @@ func (s sortableByProperty) Less(i, j int) bool {
 	// index returns the value at s.key, if in is a map that contains this key
 	index := func(i int) any {
 		value := ToLiquid(s.data[i])
+		if ms, ok := value.(yaml.MapSlice); ok {
+			// an ordered map is a map
+			for _, item := range ms {
+				if item.Key == any(s.key) {
+					return ToLiquid(item.Value)
+				}
+			}
+			return nil
+		}
 		rt := reflect.ValueOf(value)
 		if rt.Kind() == reflect.Map && rt.Type().Key().Kind() == reflect.String {
 			elem := rt.MapIndex(reflect.ValueOf(s.key).Convert(rt.Type().Key()))
 			if elem.IsValid() {
-				return elem.Interface()
+				return ToLiquid(elem.Interface())
 			}
 		}
 		return nil
